@@ -326,8 +326,11 @@ def run_beside(ctx, case):
                 plugin = rng.choice((None, 'vouch', 'vouch'))
                 settings = [('auth:slugs', {'enabled': 'True', 'url': 'http://%s/' % plugin})] if plugin else None
                 sessions = []
+                # (among them common names as long as X.520 allows, two of which agree in their first fifty characters)
+                long_a, long_b = 'u' * 50 + '-first-user-xx', 'u' * 50 + '-second-user-x'
                 for si, (names, eku) in enumerate(rng.sample([(('alice',), 'client'), (('bob',), 'client'), (('carol',), 'both'), (('dave',), 'server'),
-                                                              (('erin', 'frank'), 'client'), (None, None), (('gina',), 'client')], 4)):
+                                                              (('erin', 'frank'), 'client'), (None, None), (('gina',), 'client'),
+                                                              ((long_a,), 'client'), ((long_b,), 'client'), (('v' * 51,), 'both')], 4)):
                     der = rig.make_cert(names, eku) if names else None
                     frames = []
                     for j in range(rng.randrange(3, 8)):
